@@ -22,9 +22,10 @@ import Driver.InlineOps
 import Driver.PyOps
 import Driver.CodeOps
 import Driver.HtmlTokOps
+import Driver.MetaOps
 
 namespace Driver
 
-def handlers : List Handler := [registryHandler, dispatchHandler, normalizeHandler, tablesHandler, blockHandler, threadsHandler, tocHandler, serializerHandler, codeHandler, pyHandler, inlineHandler, triggerHandler, extractEvHandler, attrListHandler, pipelineHandler, configHandler, codecHandler, blockExtHandler, docHandler, pipelineXHandler, htmlTokHandler]
+def handlers : List Handler := [registryHandler, dispatchHandler, normalizeHandler, tablesHandler, blockHandler, threadsHandler, tocHandler, serializerHandler, codeHandler, pyHandler, inlineHandler, triggerHandler, extractEvHandler, attrListHandler, pipelineHandler, configHandler, codecHandler, blockExtHandler, docHandler, pipelineXHandler, htmlTokHandler, metaHandler]
 
 end Driver
